@@ -20,5 +20,6 @@ def run(run):
     sc = "Sys 773 %d\nFold %d\nRandom %d %d\nRandom %d %d\n" % (full, full, run.seed, 20000 if full else 4000, run.seed + 1, 20000 if full else 3000)
     tr = exec_script(run, exe, [], sc, run.path("mlog.ndjson"), "histories", timeout=600)
     check_trace(run, "histories", "TraceMlog", "TraceMlog.cfg", tr, timeout=1500)
+    count_event_cases(run, tr)
     sample_trace(run, tr, 10)
     run.traces = max(run.traces, 4)
